@@ -276,6 +276,8 @@ def monitor(module, traces, workdir, timeout=3000):
                 d = json.loads(s)
                 for k in ("ops", "agnostic", "replies"):
                     stats[k] += d.get(k, 0)
+                if "ttl_judged" in d:
+                    stats["ttl_judged"] = stats.get("ttl_judged", 0) + d["ttl_judged"]
             for v in vtlc.parse_viols(out):
                 v["file"] = tr
                 viols.append(v)
